@@ -441,6 +441,8 @@ class StmtMixin:
                 if n is node:
                     ordinal = i
         c = st.contract
+        if c is not None and c.lets and st.depth == 0 and not self.probing:
+            self.define_lets(c, st, st, st.func, f"loop{ordinal}")
         if c is not None and ordinal in c.loops:
             return c.loops[ordinal]
         return Loop()
@@ -584,6 +586,9 @@ class StmtMixin:
                     rq = fresh("rq", IntS)
                     st.assume(z3.ForAll([rq], z3.Implies(rq < bound, z3.Select(st.heap[f], rq) == z3.Select(before, rq))))
                 for r in cells[f]:
+                    rs = z3.simplify(r)
+                    if not z3.is_int_value(rs):
+                        st.assume(rs >= 0)  # a reference computed by the program denotes a program object (ghost objects are < 0)
                     st.hwrite(f, r, fresh("lc_" + f, field_sort(f).range()))
                     if f in ("$llen", "$dlen"):
                         st.assume(st.hread(f, r) >= 0)
@@ -736,7 +741,18 @@ class StmtMixin:
             snap = st.fork()
             live = seq
             seq = {"len": lambda s_, _l=live, _sn=snap: _l["len"](_sn), "get": lambda s_, i_, _l=live, _sn=snap: self._frozen_get(_l, _sn, s_, i_)}
+            if "keys" in live:
+                seq["keys"] = live["keys"]
         idx_name = lp.index or f"$i{node.lineno}"
+        if lp.seq_name and "keys" in seq:
+            # a specification-only list at a negative reference: it cannot alias any program object
+            from .sym import CLS_LIST, clsof
+
+            gr = z3.IntVal(-(1000 + node.lineno))
+            st.hwrite("$litems", gr, seq["keys"])
+            st.hwrite("$llen", gr, seq["len"](st))
+            kl = Val(V.R(gr), th=TH("List", [TH("Any")]))
+            st.spec_env = dict(st.spec_env, **{lp.seq_name: kl})
         i0 = vint(0)
         self.check_invariant(st, lp, "entry", node, {idx_name: i0})
         s = st.fork()
